@@ -69,8 +69,8 @@ func (v StaticVar) coqVal() string {
 
 // Job is one decode.
 type Job struct {
-	Prog    string      `json:"prog"`
-	Doc     string      `json:"doc"`
+	Prog    string `json:"prog"`
+	Doc     string `json:"doc"`
 	doc     *JV
 	Statics []StaticVar `json:"statics,omitempty"`
 	Fail    int         `json:"fail"` // -1: none
@@ -80,11 +80,11 @@ type Job struct {
 
 // Obs is what a decode showed.
 type Obs struct {
-	Res    string     `json:"res"`
-	Trace  []string   `json:"trace"`
-	Fields [][]string `json:"fields"`
-	Vars   []string   `json:"vars"`
-	ParseErr string   `json:"parse_err,omitempty"`
+	Res      string     `json:"res"`
+	Trace    []string   `json:"trace"`
+	Fields   [][]string `json:"fields"`
+	Vars     []string   `json:"vars"`
+	ParseErr string     `json:"parse_err,omitempty"`
 }
 
 // ICase is a sequence of jobs on one context over one set of objects.
